@@ -2,6 +2,22 @@
 """Regenerate the seeded-change table of DESIGN.md section 10 from /verif/seeded/*/meta.json."""
 import json, glob, os, re
 NOTES = {
+ "C02d-stamp-by-multiplication": "missed at first by C02 (C11 caught it): the reference scheduler followed the observed stamps; the statement's `every tick when p does not exceed the tick` clause is now binding on decimal grids too (20-tick horizons)",
+ "C16d-continuation-two-phase": "missed at first: blank/comment lines were only inserted before the first continuation line; fillers between every pair of continuation lines added",
+ "C14d-marker-dedupe-unresolved-actor": "missed at first by C14 (C20 caught it): frames named by `in frame` had no enter actions; scaffold frames (earlier/same/later) now carry them",
+ "C30d-reinit-before-rebuild": "missed at first: one request per Patron; all 1-3 request sequences over HEAD/GET/POST/DELETE on one keep-alive Patron added",
+ "C32d-charset-lookuperror": "missed at first: Content-Type parameters were never mutated; charset family (67 names x client/server dictify callers) added",
+ "C21d-indirect-band-cached": "missed at first by C21 and C07: the goal share was never rewritten inside one tick; before/after writers (scripted and harness, stamping and non-stamping) added to C21, env front/back writes of the goal added to C07",
+ "C13d-nametopath-letters-only": "missed at first: actor names were letters only; sibling doers differing only in digits/underscores and renamings among them added",
+ "C28d-refresh-skipped-while-persisted": "missed at first: no persistence-ending request with a deferred response after a long keep-alive idle; added",
+ "C31d-length-before-chunked-client": "missed at first by C31 (C30 caught it): no bodiless (204/304) responses without Content-Length inside keep-alive sequences; added",
+ "C34d-location-query-double-unquote": "missed at first: Location queries had no escaped reserved characters; escaped relative/absolute forms at every chain position added",
+ "C23d-flush-any-short-circuit": "missed at first: the harness's flush wrappers returned None (masking the short-circuit); they now return the wrapped result, and 2-3 log loggers were added",
+ "C42d-storetimer-zero-start": "missed at first: timers were always created at clock 1000.0; creation at 0.0 / unstamped stores and absolute restart(start=0.0) added",
+ "C37d-slot-cache-off-by-one": "missed at first: needs 5 operations from an empty stack; second BFS family from a stack preloaded with four members added",
+ "C36d-incomer-trims-in-place": "missed at first by C36 and C24: every send used a fresh buffer; same Packet/bytearray queued twice or broadcast, plus `caller's buffer unchanged` oracle added",
+ "C38d-timers-not-rearmed-at-start": "missed at first: exchanges were constructed and started at the same stamp; construction-to-start gaps and restart after failure added",
+ "C47d-house-current-skip": "missed at first: registries compared by contents only; identity of the current registry object compared, per-class Clear + re-entering the same house family added",
  "C05c-first-run-done-no-resuspend": "missed at first: quick tier had no instantly-completing conditional aux above a running one; now-never / now-repeat1 pairs added to C05/C10 quick",
  "C20c-marker-dedupe-across-kinds": "missed at first: no program used `is updated` and `is changed` on the same share/key/frame; both-kinds family added",
  "C09c-claimed-only-if-unowned": "missed at first: shared original aux was never HELD by the exited frame while two target frames carried it; hand-over family added",
